@@ -12,6 +12,13 @@ use std::panic::{catch_unwind, AssertUnwindSafe};
 use std::sync::atomic::Ordering;
 use std::sync::{Arc, Mutex};
 
+struct Teardown(std::sync::Arc<crate::world::World>);
+impl Drop for Teardown {
+    fn drop(&mut self) {
+        self.0.teardown();
+    }
+}
+
 pub struct PullOutcome {
     pub pipe: Pipe,
     pub got: Vec<i64>,
@@ -42,7 +49,13 @@ pub fn run_one(pipe: &Pipe) -> PullOutcome {
                 trace: vec![],
                 hash: 0,
                 events: 0,
-                verdict: Some(("HARNESS", "reference-evaluator-panicked", format!("{} at {} for {}", msg, loc, pipe.show()))),
+                // a reference that runs into the iterator budget is a program that is too large
+                // for this engine, not a fault: skip it
+                verdict: if msg.starts_with("HARNESS: iterator budget exceeded") {
+                    None
+                } else {
+                    Some(("HARNESS", "reference-evaluator-panicked", format!("{} at {} for {}", msg, loc, pipe.show())))
+                },
                 got_calls: vec![],
                 want_calls: vec![],
             };
@@ -107,6 +120,8 @@ pub fn run_one(pipe: &Pipe) -> PullOutcome {
             return out;
         },
         Ok((got, world)) => {
+            let world2 = std::sync::Arc::clone(&world);
+            let _td = Teardown(world2);
             let g = world.lock();
             out.got = got;
             out.trace = render(&g);
@@ -194,6 +209,117 @@ fn pipe_macro_test() -> Option<String> {
     if r2 != vec!["a", "f", "g"] {
         return Some(format!("nested pipe! returned {:?}", r2));
     }
+    // every length from 1 to 11 stages: each stage exactly once, left to right
+    {
+        log.lock().unwrap().clear();
+        let r = callbag::pipe!(vec!["x"], mk("a"));
+        let want: Vec<&'static str> = vec!["x", "a"];
+        let order: Vec<String> = log.lock().unwrap().iter().map(|l| l.split('(').next().unwrap_or("").to_string()).collect();
+        let want_order: Vec<String> = want[1..].iter().map(|s| s.to_string()).collect();
+        if r != want || order != want_order {
+            return Some(format!("pipe! with 1 stages applied them in the order {:?} and returned {:?}", order, r));
+        }
+    }
+    {
+        log.lock().unwrap().clear();
+        let r = callbag::pipe!(vec!["x"], mk("a"), mk("b"));
+        let want: Vec<&'static str> = vec!["x", "a", "b"];
+        let order: Vec<String> = log.lock().unwrap().iter().map(|l| l.split('(').next().unwrap_or("").to_string()).collect();
+        let want_order: Vec<String> = want[1..].iter().map(|s| s.to_string()).collect();
+        if r != want || order != want_order {
+            return Some(format!("pipe! with 2 stages applied them in the order {:?} and returned {:?}", order, r));
+        }
+    }
+    {
+        log.lock().unwrap().clear();
+        let r = callbag::pipe!(vec!["x"], mk("a"), mk("b"), mk("c"));
+        let want: Vec<&'static str> = vec!["x", "a", "b", "c"];
+        let order: Vec<String> = log.lock().unwrap().iter().map(|l| l.split('(').next().unwrap_or("").to_string()).collect();
+        let want_order: Vec<String> = want[1..].iter().map(|s| s.to_string()).collect();
+        if r != want || order != want_order {
+            return Some(format!("pipe! with 3 stages applied them in the order {:?} and returned {:?}", order, r));
+        }
+    }
+    {
+        log.lock().unwrap().clear();
+        let r = callbag::pipe!(vec!["x"], mk("a"), mk("b"), mk("c"), mk("d"));
+        let want: Vec<&'static str> = vec!["x", "a", "b", "c", "d"];
+        let order: Vec<String> = log.lock().unwrap().iter().map(|l| l.split('(').next().unwrap_or("").to_string()).collect();
+        let want_order: Vec<String> = want[1..].iter().map(|s| s.to_string()).collect();
+        if r != want || order != want_order {
+            return Some(format!("pipe! with 4 stages applied them in the order {:?} and returned {:?}", order, r));
+        }
+    }
+    {
+        log.lock().unwrap().clear();
+        let r = callbag::pipe!(vec!["x"], mk("a"), mk("b"), mk("c"), mk("d"), mk("e"));
+        let want: Vec<&'static str> = vec!["x", "a", "b", "c", "d", "e"];
+        let order: Vec<String> = log.lock().unwrap().iter().map(|l| l.split('(').next().unwrap_or("").to_string()).collect();
+        let want_order: Vec<String> = want[1..].iter().map(|s| s.to_string()).collect();
+        if r != want || order != want_order {
+            return Some(format!("pipe! with 5 stages applied them in the order {:?} and returned {:?}", order, r));
+        }
+    }
+    {
+        log.lock().unwrap().clear();
+        let r = callbag::pipe!(vec!["x"], mk("a"), mk("b"), mk("c"), mk("d"), mk("e"), mk("f"));
+        let want: Vec<&'static str> = vec!["x", "a", "b", "c", "d", "e", "f"];
+        let order: Vec<String> = log.lock().unwrap().iter().map(|l| l.split('(').next().unwrap_or("").to_string()).collect();
+        let want_order: Vec<String> = want[1..].iter().map(|s| s.to_string()).collect();
+        if r != want || order != want_order {
+            return Some(format!("pipe! with 6 stages applied them in the order {:?} and returned {:?}", order, r));
+        }
+    }
+    {
+        log.lock().unwrap().clear();
+        let r = callbag::pipe!(vec!["x"], mk("a"), mk("b"), mk("c"), mk("d"), mk("e"), mk("f"), mk("g"));
+        let want: Vec<&'static str> = vec!["x", "a", "b", "c", "d", "e", "f", "g"];
+        let order: Vec<String> = log.lock().unwrap().iter().map(|l| l.split('(').next().unwrap_or("").to_string()).collect();
+        let want_order: Vec<String> = want[1..].iter().map(|s| s.to_string()).collect();
+        if r != want || order != want_order {
+            return Some(format!("pipe! with 7 stages applied them in the order {:?} and returned {:?}", order, r));
+        }
+    }
+    {
+        log.lock().unwrap().clear();
+        let r = callbag::pipe!(vec!["x"], mk("a"), mk("b"), mk("c"), mk("d"), mk("e"), mk("f"), mk("g"), mk("h"));
+        let want: Vec<&'static str> = vec!["x", "a", "b", "c", "d", "e", "f", "g", "h"];
+        let order: Vec<String> = log.lock().unwrap().iter().map(|l| l.split('(').next().unwrap_or("").to_string()).collect();
+        let want_order: Vec<String> = want[1..].iter().map(|s| s.to_string()).collect();
+        if r != want || order != want_order {
+            return Some(format!("pipe! with 8 stages applied them in the order {:?} and returned {:?}", order, r));
+        }
+    }
+    {
+        log.lock().unwrap().clear();
+        let r = callbag::pipe!(vec!["x"], mk("a"), mk("b"), mk("c"), mk("d"), mk("e"), mk("f"), mk("g"), mk("h"), mk("i"));
+        let want: Vec<&'static str> = vec!["x", "a", "b", "c", "d", "e", "f", "g", "h", "i"];
+        let order: Vec<String> = log.lock().unwrap().iter().map(|l| l.split('(').next().unwrap_or("").to_string()).collect();
+        let want_order: Vec<String> = want[1..].iter().map(|s| s.to_string()).collect();
+        if r != want || order != want_order {
+            return Some(format!("pipe! with 9 stages applied them in the order {:?} and returned {:?}", order, r));
+        }
+    }
+    {
+        log.lock().unwrap().clear();
+        let r = callbag::pipe!(vec!["x"], mk("a"), mk("b"), mk("c"), mk("d"), mk("e"), mk("f"), mk("g"), mk("h"), mk("i"), mk("j"));
+        let want: Vec<&'static str> = vec!["x", "a", "b", "c", "d", "e", "f", "g", "h", "i", "j"];
+        let order: Vec<String> = log.lock().unwrap().iter().map(|l| l.split('(').next().unwrap_or("").to_string()).collect();
+        let want_order: Vec<String> = want[1..].iter().map(|s| s.to_string()).collect();
+        if r != want || order != want_order {
+            return Some(format!("pipe! with 10 stages applied them in the order {:?} and returned {:?}", order, r));
+        }
+    }
+    {
+        log.lock().unwrap().clear();
+        let r = callbag::pipe!(vec!["x"], mk("a"), mk("b"), mk("c"), mk("d"), mk("e"), mk("f"), mk("g"), mk("h"), mk("i"), mk("j"), mk("k"));
+        let want: Vec<&'static str> = vec!["x", "a", "b", "c", "d", "e", "f", "g", "h", "i", "j", "k"];
+        let order: Vec<String> = log.lock().unwrap().iter().map(|l| l.split('(').next().unwrap_or("").to_string()).collect();
+        let want_order: Vec<String> = want[1..].iter().map(|s| s.to_string()).collect();
+        if r != want || order != want_order {
+            return Some(format!("pipe! with 11 stages applied them in the order {:?} and returned {:?}", order, r));
+        }
+    }
     None
 }
 
@@ -204,7 +330,7 @@ pub fn make_pipe(seed: u64, index: u64) -> Pipe {
 
 pub fn run(o: &Opts, rep: &mut Report) {
     let known = load_known(&o.known);
-    let total: u64 = o.cases.unwrap_or(if o.tier == "thorough" { 6_000_000 } else { 200_000 });
+    let total: u64 = o.cases.unwrap_or(if o.tier == "thorough" { 3_000_000 } else { 200_000 });
     let nthreads = o.threads.max(1);
     let seed = o.seed;
     let prop = o.prop.clone();
